@@ -1,13 +1,18 @@
 import IcyVerif.Lemmas.FontRt
 import IcyVerif.Lemmas.TdfRt
+import IcyVerif.Lemmas.FontBoxRt
+import IcyVerif.Lemmas.FontBoxIcy
+import IcyVerif.Lemmas.FontRaw
+import IcyVerif.Lemmas.Base64
 /-! # C17 — bitmap and TheDraw fonts survive every encoding the engine uses
 
 Models: `Model/Font.lean` (src/fonts.rs + the `CTerm:Font:` DCS payload of dcs.rs), `Model/Tdf.lean`
 (src/tdf_font/mod.rs), both of the repaired tree.  `WfFont f h` covers every font of the property's quantifier
 (width 8, height 1..=32, 256 or 512 glyphs) and more (any complete table of up to 55296 glyphs, heights up to 255).
-Container byte layouts of XBin/ADF/IDF/IcyDraw belong to C05/C07; here: what is local to fonts.rs
-(`convert_to_u8_data` → `create_8`/`from_basic`; IcyDraw `FONT_n` chunk = string + PSF2) — the containers are covered by
-the oracle run of the harness (`Buffer::to_bytes` → `from_bytes` → compare glyphs). -/
+Container byte layouts of XBin/ADF/IDF/IcyDraw are C05's `Model/BinFormats.lean` and C07's `Model/IcyDraw.lean`; the
+container theorems below (`font_block_position`, `xb_font_rt_partial`, `adf_font_rt`, `idf_font_rt`,
+`adf_idf_font_rt_nosauce_partial`, `icy_font_rt`) are stated ON those models (`Model/FontBox.lean` says how a `BitFont` goes
+in and comes out), for all palettes, flags, pictures and layers next to the font. -/
 namespace IcyVerif.C17
 open IcyVerif.Font IcyVerif.Tdf IcyVerif.Uni
 
@@ -19,7 +24,8 @@ theorem psf2_rt (f : BitFont) (h : Nat) (wf : WfFont f h) :
 
 /-- raw 8-bit glyph data: `from_bytes(convert_to_u8_data(f)) = f` for 256-glyph fonts.
     FULL statement (without `noMagic`) is FALSE: raw data has no header and `from_bytes` sniffs PSF magic numbers first
-    (finding `raw_font_magic_ambiguity`, see `raw_magic_counterexample`). -/
+    (finding `raw_font_magic_ambiguity`, see `raw_magic_counterexample`).  Superseded by `raw_rt_exact` below (the exact
+    guard, as an iff); kept because it needs no hypothesis on the row values. -/
 theorem raw_rt_partial (f : BitFont) (h : Nat) (wf : WfFont f h) (h256 : f.glyphs.length = 256) :
     ∃ d, f.toU8 = .ok d ∧ d.length = 256 * h ∧ (noMagic d = true → fromBytes d = .ok f) := by
   refine ⟨_, toU8_eq f h wf, ?_, raw_roundtrip f h wf h256⟩
@@ -32,16 +38,85 @@ theorem raw_magic_counterexample :
     fromBytes ([0x36, 0x04, 0, 2] ++ List.replicate 252 7) ≠ .ok f := by
   decide +kernel
 
+
+/-- raw glyph data, the EXACT guard: `from_bytes(convert_to_u8_data(f)) = f` **iff** `rawGuard` — data starting with the
+    PSF1 magic never comes back, data starting with the PSF2 magic comes back exactly when its first 32 bytes are a PSF2
+    header (version 0, header size 0, 256 glyphs, char size = height = the font's, width 8) overlaying the glyph rows, all
+    other data comes back.  This is the full-strength statement for the code as it is; the property's sentence "raw 8-bit
+    glyph data … read back" is false exactly on the complement of the guard (finding `raw_font_magic_ambiguity`). -/
+theorem raw_rt_exact (f : BitFont) (h : Nat) (wf : WfFont f h) (h256 : f.glyphs.length = 256)
+    (hb : ∀ x ∈ flat f.glyphs, x < 256) :
+    ∃ d, f.toU8 = .ok d ∧ d.length = 256 * h ∧ (fromBytes d = .ok f ↔ rawGuard d h = true) := by
+  refine ⟨_, toU8_eq f h wf, ?_, raw_exact f h wf h256 hb⟩
+  rw [flat_length h _ wf.rows, h256]
+
+/-- DCS font loading with the REAL codec (`B64.stdCodec`: executable base64 and decimal formatting, whose laws are proved in
+    `Lemmas/Base64.lean` and which the correspondence run compares with the crates): for every slot number a `usize` can
+    hold, `load_custom_font(encode_as_ansi(f, slot))` installs `f` in `slot` **iff** `rawGuard` — no assumption about
+    base64 padding (heights 1, 2, 3 mod 3 give `==`, `=`, none) or number formatting is left. -/
+theorem dcs_rt_exact (f : BitFont) (h : Nat) (wf : WfFont f h) (h256 : f.glyphs.length = 256)
+    (hb : ∀ x ∈ flat f.glyphs, x < 256) (slot : Nat) (hs : slot < 18446744073709551616) :
+    ∃ s, encodeAnsi IcyVerif.B64.stdCodec f slot = .ok s ∧
+      (loadCustomFont IcyVerif.B64.stdCodec s = .ok (slot, f) ↔ rawGuard (flat f.glyphs) h = true) := by
+  refine ⟨prefixCTerm ++ IcyVerif.B64.stdCodec.fmt slot ++ [58] ++ IcyVerif.B64.stdCodec.b64e (flat f.glyphs), ?_, ?_⟩
+  · unfold encodeAnsi; rw [toU8_eq f h wf]
+  · unfold loadCustomFont
+    have hdrop : (prefixCTerm ++ IcyVerif.B64.stdCodec.fmt slot ++ [58] ++ IcyVerif.B64.stdCodec.b64e (flat f.glyphs)).drop
+        prefixCTerm.length = IcyVerif.B64.stdCodec.fmt slot ++ 58 :: IcyVerif.B64.stdCodec.b64e (flat f.glyphs) := by
+      simp [List.append_assoc]
+    rw [hdrop, splitColon_append _ _ (IcyVerif.B64.std_nocolon slot)]
+    simp only [IcyVerif.B64.std_num slot hs, IcyVerif.B64.std_b64 _ hb]
+    rw [← raw_exact f h wf h256 hb]
+    cases hfb : fromBytes (flat f.glyphs) with
+    | ok g => simp
+    | err => simp
+    | panic => simp
+
+/-- the excluded points are real, and the overlay case of the guard is real too (8x1 fonts): PSF2 magic followed by
+    anything but the overlay header is rejected; PSF2 magic followed by the overlay header comes back -/
+theorem raw_psf2_witnesses :
+    let bad : List Nat := [0x72, 0xb5, 0x4a, 0x86] ++ List.replicate 252 7
+    let good : List Nat := [0x72, 0xb5, 0x4a, 0x86, 0, 0, 0, 0, 0, 0, 0, 0, 9, 9, 9, 9, 0, 1, 0, 0, 1, 0, 0, 0, 1, 0, 0, 0, 8, 0, 0, 0] ++
+      List.replicate 224 7
+    let fb : BitFont := { w := 8, h := 1, length := 256, glyphs := bad.map fun b => some [b] }
+    let fg : BitFont := { w := 8, h := 1, length := 256, glyphs := good.map fun b => some [b] }
+    (fb.toU8 = .ok bad ∧ rawGuard bad 1 = false ∧ fromBytes bad ≠ .ok fb) ∧
+    (fg.toU8 = .ok good ∧ rawGuard good 1 = true ∧ fromBytes good = .ok fg) := by
+  decide +kernel
+
+/-- recorded, outside the quantifier (raw glyph data exists for 256-glyph fonts only — "256 (or 512 for PSF)"): which
+    lengths are ambiguous.  `from_bytes` takes ANY multiple of 256 bytes as 256 glyphs, so the raw data of a 512-glyph font
+    of height `h` is read as a 256-glyph font of height `2h`. -/
+theorem raw_512_reads_as_double_height :
+    let f : BitFont := { w := 8, h := 1, length := 512, glyphs := List.replicate 512 (some [5]) }
+    f.toU8 = .ok (List.replicate 512 5) ∧
+    fromBytes (List.replicate 512 5) = .ok { w := 8, h := 2, length := 256, glyphs := List.replicate 256 (some [5, 5]) } := by
+  decide +kernel
+
 /-- raw glyph data through `create_8` / `from_basic` (the font part of the XBin, ADF and IDF loaders): no sniffing, no
     exception -/
 theorem basic_rt (f : BitFont) (h : Nat) (wf : WfFont f h) (h256 : f.glyphs.length = 256) :
     ∃ d, f.toU8 = .ok d ∧ fromBasic 8 h d = f :=
   ⟨_, toU8_eq f h wf, basic_roundtrip f h wf h256⟩
 
+
+/-- one glyph through the clipboard encoding (`get_clipboard_data` → `Glyph::from_clipbard_data`): size and rows come back,
+    for every glyph of every well-formed font -/
+theorem clip_rt (f : BitFont) (h : Nat) (wf : WfFont f h) (k : Nat) (g : Glyph) (hg : f.get k = some g) :
+    ∃ d, f.clipData k = some d ∧ fromClip d = .ok ((8, h), g) := by
+  refine ⟨_, by unfold BitFont.clipData; rw [hg]; rfl, ?_⟩
+  have h255 := wf.h255
+  have e8 : asU32 (8 : Int) = 8 := by decide
+  rw [wf.w8, wf.hh, e8, asU32_nat h (by omega)]
+  simp only [clip16, fromClip, List.cons_append, List.nil_append]
+  have e1 : h % 65536 % 256 + 256 * (h % 65536 / 256 % 256) = h := by omega
+  rw [e1]
+
 /-- DCS font loading: `load_custom_font(encode_as_ansi(f, slot))` installs `f` in `slot`, for every codec satisfying
     `CodecLaws` (base64 decode∘encode = id, decimal parse∘format = id, no ':' in a formatted number — recorded assumptions
     about crates `base64` and `std`, exercised with the real crates by the correspondence run).
-    Partial for the same reason as `raw_rt_partial`. -/
+    Partial for the same reason as `raw_rt_partial`.  Superseded by `dcs_rt_exact` (real codec with proved laws, exact
+    guard); kept as the codec-generic form. -/
 theorem dcs_rt_partial (c : Codec) (hc : CodecLaws c) (f : BitFont) (h : Nat) (wf : WfFont f h)
     (h256 : f.glyphs.length = 256) (hm : noMagic (flat f.glyphs) = true) (slot : Nat) :
     ∃ s, encodeAnsi c f slot = .ok s ∧ loadCustomFont c s = .ok (slot, f) :=
@@ -89,6 +164,133 @@ theorem tdf_oversize_rejected (f : TdfFont) (h : (encLoop [] [] f.table).2.lengt
         simp only at h ⊢
         rw [if_pos h]
   unfold asTdf; rw [this]
+
+
+/-! ## fonts inside containers
+
+`p.fonts` holds `boxFont name f` = (name, height, `convert_to_u8_data()`) per slot; `FontBack g slot f` says that the loaded
+buffer `g` has, in `slot`, a font block that `BitFont::create_8` turns into exactly `f` (structural equality of the whole
+`BitFont`: dimensions, glyph count, every glyph row). -/
+section containers
+open IcyVerif.FontBox IcyVerif.BinFormats IcyVerif.XbCompress IcyVerif.Gen
+
+/-- POSITION of the font blocks — XBin: behind the 11-byte header and the 48-byte palette block iff the palette is not the
+    default one, second font right behind the first; ADF: offset 193; IDF: behind the image data — for EVERY picture the
+    writers accept (no representability hypothesis): at the offsets `fontBlocks` names, the file holds the glyph bytes. -/
+theorem font_block_position (f : Fmt) (o : Opts) (date : List Nat) (p : Pic) (bytes : List Nat)
+    (h : save f o date p = .ok bytes) :
+    ∀ b ∈ fontBlocks f o p, ∃ font, lookupFont p.fonts b.1 = some font ∧ (bytes.drop b.2.1).take b.2.2 = font.data :=
+  font_blocks_hold f o date p bytes h
+
+/-- **XBin** (corollary of C05 `xb_roundtrip`; one font, or two in the 512-character mode; heights 1..=32; every 16-colour
+    6-bit palette; blink / ice; compressed / raw; every representable picture): every font in use comes back glyph for glyph.
+    PARTIAL — the full statement is the same for every font NAME and without the last alternative of `hs`; excluded:
+    (1) a font NAMED like the built-in default font but with other glyphs (`Representable` → `fontOk`): the writer decides
+        by name whether to embed (finding `xbin_font_named_default`, witness `xb_named_default_violates`);
+    (2) a file saved WITHOUT a SAUCE record whose last 128 bytes read as one (C05 finding `xb:content-reads-as-sauce`). -/
+theorem xb_font_rt_partial (o : Opts) (date : List Nat) (p : Pic) (hrep : Representable .xb o p = true)
+    (hdate : dateOk date = true) :
+    ∃ bytes, save .xb o date p = .ok bytes ∧
+      ((o.sauce = true ∨ looksLikeSauce bytes = false) → ∃ g, fromBytes .xb bytes = .ok g ∧
+        ∀ slot ∈ analyzeFontUsage p.rows.flatten, ∀ (name : List Nat) (f : BitFont) (h : Nat), WfFont f h →
+          f.glyphs.length = 256 → lookupFont p.fonts slot = boxFont name f → FontBack g slot f) := by
+  obtain ⟨bytes, h1, h2⟩ := xb_font_roundtrip o date p hrep hdate
+  refine ⟨bytes, h1, fun hor => ?_⟩
+  obtain ⟨g, h3, h4⟩ := h2 hor
+  exact ⟨g, h3, fun slot hs name f h wf h256 hp => h4 slot hs name f h wf h256 (by rw [hp, boxFont_wf name f h wf])⟩
+
+/-- **ArtWorx ADF**, saved with a SAUCE record: FULL strength — every 8x16 font of 256 glyphs, whatever its name, next to
+    every 6-bit palette and every 80-column ice-colour picture. -/
+theorem adf_font_rt (o : Opts) (date : List Nat) (p : Pic) (hs : o.sauce = true) (hok : boxOk .adf p = true)
+    (hdate : dateOk date = true) (name : List Nat) (f : BitFont) (wf : WfFont f 16) (h256 : f.glyphs.length = 256)
+    (hp : lookupFont p.fonts 0 = boxFont name f) :
+    ∃ bytes g, save .adf o date p = .ok bytes ∧ fromBytes .adf bytes = .ok g ∧ FontBack g 0 f := by
+  obtain ⟨bytes, f0, hf0, h1, h2⟩ := adf_font_roundtrip o date p hok hdate
+  obtain ⟨g, h3, h4⟩ := h2 (Or.inl hs)
+  rw [hp, boxFont_wf name f 16 wf] at hf0
+  injection hf0 with hf0
+  exact ⟨bytes, g, h1, h3, fontBack_single g _ h4 f (unbox_flat _ f 16 wf h256 rfl (by rw [← hf0]; rfl))⟩
+
+/-- **iCE Draw IDF**, saved with a SAUCE record, raw or run-length coded: FULL strength, as for ADF (width 1..=80, at
+    most 200 rows). -/
+theorem idf_font_rt (o : Opts) (date : List Nat) (p : Pic) (hs : o.sauce = true) (hok : boxOk .idf p = true)
+    (hdate : dateOk date = true) (name : List Nat) (f : BitFont) (wf : WfFont f 16) (h256 : f.glyphs.length = 256)
+    (hp : lookupFont p.fonts 0 = boxFont name f) :
+    ∃ bytes g, save .idf o date p = .ok bytes ∧ fromBytes .idf bytes = .ok g ∧ FontBack g 0 f := by
+  obtain ⟨bytes, f0, hf0, h1, h2⟩ := idf_font_roundtrip o date p hok hdate
+  obtain ⟨g, h3, h4⟩ := h2 (Or.inl hs)
+  rw [hp, boxFont_wf name f 16 wf] at hf0
+  injection hf0 with hf0
+  exact ⟨bytes, g, h1, h3, fontBack_single g _ h4 f (unbox_flat _ f 16 wf h256 rfl (by rw [← hf0]; rfl))⟩
+
+/-- ADF / IDF saved WITHOUT a SAUCE record.  PARTIAL — full statement: the same without `hns`; excluded: files whose
+    last 128 bytes (picture content / palette) read as a SAUCE record (C05 finding `<fmt>:content-reads-as-sauce`). -/
+theorem adf_idf_font_rt_nosauce_partial (fm : Fmt) (hfm : fm = .adf ∨ fm = .idf) (o : Opts) (date : List Nat) (p : Pic)
+    (hok : boxOk fm p = true) (hdate : dateOk date = true) (name : List Nat) (f : BitFont) (wf : WfFont f 16)
+    (h256 : f.glyphs.length = 256) (hp : lookupFont p.fonts 0 = boxFont name f) :
+    ∃ bytes, save fm o date p = .ok bytes ∧
+      (looksLikeSauce bytes = false → ∃ g, fromBytes fm bytes = .ok g ∧ FontBack g 0 f) := by
+  rcases hfm with rfl | rfl
+  · obtain ⟨bytes, f0, hf0, h1, h2⟩ := adf_font_roundtrip o date p hok hdate
+    refine ⟨bytes, h1, fun hns => ?_⟩
+    obtain ⟨g, h3, h4⟩ := h2 (Or.inr hns)
+    rw [hp, boxFont_wf name f 16 wf] at hf0
+    injection hf0 with hf0
+    exact ⟨g, h3, fontBack_single g _ h4 f (unbox_flat _ f 16 wf h256 rfl (by rw [← hf0]; rfl))⟩
+  · obtain ⟨bytes, f0, hf0, h1, h2⟩ := idf_font_roundtrip o date p hok hdate
+    refine ⟨bytes, h1, fun hns => ?_⟩
+    obtain ⟨g, h3, h4⟩ := h2 (Or.inr hns)
+    rw [hp, boxFont_wf name f 16 wf] at hf0
+    injection hf0 with hf0
+    exact ⟨g, h3, fontBack_single g _ h4 f (unbox_flat _ f 16 wf h256 rfl (by rw [← hf0]; rfl))⟩
+
+/-- **IcyDraw** (corollary of C07 `doc_rt` with the real `FONT_n` codec `icyCodecs`: name as a string field + PSF2): every
+    font slot of every well-formed document — any number of slots, 256 / 512 / any glyph count, every height 1..=255,
+    valid UTF-8 names — is read back as the font that was saved (name and `BitFont`), whatever palette, SAUCE record and
+    layers are next to it.  The palette and SAUCE payload codecs stay parameters with their own laws (C16 / C11). -/
+theorem icy_font_rt {S : Type} (palEnc : List IcyDraw.RGB → List Nat) (palDec : List Nat → IcyDraw.Res (List IcyDraw.RGB))
+    (sauceDec : List Nat → IcyDraw.Res (Option S)) (dflt : IcyFont) (sauceEqv : S → S → Prop)
+    (d : IcyDraw.Doc IcyFont S) (hw : IcyVerif.C07.WfDoc d) (hfonts : ∀ kf ∈ d.fonts, WfIcyFont kf.2)
+    (hpal : palDec (palEnc d.palette) = .ok d.palette)
+    (hsauce : ∀ s b, d.sauce = some (s, b) → ∃ s', sauceDec b = .ok (some s') ∧ sauceEqv s' s) :
+    ∃ cs st, IcyDraw.encodeDoc (icyCodecs palEnc palDec sauceDec dflt) d = some cs ∧
+      IcyDraw.decodeDoc (icyCodecs palEnc palDec sauceDec dflt) cs = .ok st ∧ ∀ k, st.fontAt k = d.fonts.lookup k := by
+  obtain ⟨cs, st, h1, h2, _, _, h5, _, _⟩ := IcyVerif.C07.doc_rt (icyCodecs palEnc palDec sauceDec dflt) sauceEqv d hw
+    ⟨hpal, fun kf hkf => icy_font_codec palEnc palDec sauceDec dflt kf.2 (hfonts kf hkf), hsauce⟩
+  exact ⟨cs, st, h1, h2, h5⟩
+
+/-! ### non-vacuity and the excluded point -/
+set_option maxRecDepth 100000
+
+def boxDate : List Nat := [50, 48, 50, 52, 48, 50, 50, 57]
+/-- an 8x8 font whose glyph `g` is eight rows of byte `g` (a shift by k glyphs or k bytes shows) -/
+def idxFont : BitFont := { w := 8, h := 8, length := 256, glyphs := (List.range 256).map fun g => some (List.replicate 8 g) }
+def idxBox : BinFormats.Font := ⟨[70], 8, (List.range 256).flatMap fun g => List.replicate 8 g⟩
+def boxPal : List Rgb := (List.range 16).map fun i => (expand6 (i * 3), expand6 (63 - i), expand6 (i * 4))
+/-- XBin, custom palette AND custom font, compressed, with SAUCE -/
+def xbBoxPic : Pic := ⟨2, 1, [[⟨0x41, ⟨7, 0, 0, 0⟩⟩, ⟨0x42, ⟨12, 1, 0, 0⟩⟩]], .ice, boxPal, [(0, idxBox)]⟩
+example : Representable .xb ⟨true, true⟩ xbBoxPic = true := by decide +kernel
+example : boxFont [70] idxFont = some idxBox := by decide +kernel
+example : fontBlocks .xb ⟨true, true⟩ xbBoxPic = [(0, 59, 2048)] := by decide +kernel
+example : (match save .xb ⟨true, true⟩ boxDate xbBoxPic with
+    | .ok b => (match fromBytes .xb b with
+      | .ok g => (lookupFont g.fonts 0).map unboxFont == some idxFont
+      | _ => false)
+    | _ => false) = true := by decide +kernel
+
+/-- **Excluded from `xb_font_rt_partial`, and really false:** an 8x16 font NAMED like the built-in default font whose
+    glyphs are all zero is not embedded (no font block, flag clear) and the built-in glyphs are read back. -/
+def namedPic : Pic := ⟨1, 1, [[⟨0x41, ⟨7, 0, 0, 0⟩⟩]], .blink, dosPalette, [(0, ⟨BinFmt.defaultFontName, 16, List.replicate 4096 0⟩)]⟩
+theorem xb_named_default_violates :
+    fontBlocks .xb ⟨true, false⟩ namedPic = [] ∧
+    (match save .xb ⟨true, false⟩ boxDate namedPic with
+     | .ok b => (match fromBytes .xb b with
+       | .ok g => (lookupFont g.fonts 0).map (·.data) == some BinFmt.defaultFontData && BinFmt.defaultFontData != List.replicate 4096 0
+       | _ => false)
+     | _ => false) = true := by
+  constructor <;> decide +kernel
+
+end containers
 
 /-! ## non-vacuity -/
 /-- every font of the property's quantifier is in the domain of the theorems -/
